@@ -45,8 +45,12 @@ def run_unit(name, workdir, tier, want_canaries=True):
         jobs = {"main": path}
         cgens = {}
         if want_canaries:
-            for kind in ("fn", "loop"):
+            kinds = ["fn", "loop0"]
+            while kinds:
+                kind = kinds.pop(0)
                 cg = build.build_unit(name, canary=kind)
+                if kind == "loop0":
+                    kinds.extend("loop%d" % k for k in range(1, getattr(cg, "loop_total", 0)))
                 if not cg.canaries: continue
                 cp = os.path.join(workdir, "%s_canary_%s.rs" % (name, kind))
                 open(cp, "w").write(cg.text())
@@ -59,7 +63,7 @@ def run_unit(name, workdir, tier, want_canaries=True):
     def go(item):
         k, p = item
         return k, verus.run_verus(p, rlimit=rlimit if k == "main" else None)
-    with ThreadPoolExecutor(max_workers=3) as ex:
+    with ThreadPoolExecutor(max_workers=8) as ex:
         results = dict(ex.map(go, jobs.items()))
     u.res = results["main"]
     u.cls = verus.classify(u.res, g.lines)
